@@ -52,7 +52,7 @@ theorem first_packet_accepted (e e' : Env) (addr : String) (ep : Endpoint) (ch :
   have h0 := seqFromCookie_range cookie 0
   have h1 := seqFromCookie_range cookie 1
   simp only [serverSide, clientSide, Endpoint.accepted, Endpoint.onAck, Conn.seqInit, Conn.emit, Notify.init, Bool.not_false, if_true,
-    Notify.deltaSeq, Notify.headerWith, seq_num_greater_than, seq_num_greater_equal, seq_num_diff, seq_num_init]
+    Notify.deltaSeq_eq, Notify.deltaSeqSpec, Notify.headerWith, seq_num_greater_than, seq_num_greater_equal, seq_num_diff, seq_num_init]
   constructor
   · have a1 : ((seqFromCookie cookie 1 % 65536 % 16384 % 65536 != (seqFromCookie cookie 1 - 1) % 65536 % 16384 % 65536) = true) := by
       simp only [bne_iff_ne, ne_eq]; omega
